@@ -1,8 +1,31 @@
 """C02 -- lifecycle family; see harness/props/_life.py (co-simulation of coq/theories/Life/Model.v
-against the real Nextline + scenario families + the C02 oracle of harness/life_oracles.py)."""
+against the real Nextline + scenario families + the C02 oracle of harness/life_oracles.py).
+
+Second tie (the `C02_tie_*` theorems of Props/C02.v): the record-keeping code is translated statement by statement
+at every check (translate/run_record.py -> Gen/RunRecord.v; control flow: translate/callback_skeleton.py ->
+Gen/CallbackSkeleton.v; the asyncio task behind the process handle: translate/run_skeleton.py -> Gen/RunSkeleton.v) and
+Life/RecordInterp.v / RecordRun.v / RecordTie.v prove, about THOSE definitions, for every outcome of the child, every
+exit code and every raising await: `_run_finished.set()` on every path out of `_finish`; run_info = initialized,
+running, finished once under one run number; the finished record = the outcome = what result()/format_exception()
+report; awaiting the process handle never raises; simulation with the publications of Life/Model.v."""
 from . import _life
 
 PROP_FILES = ['Props/C02.v']
-TRUSTED_BASE = _life.TRUSTED_BASE
-ASSUMPTIONS = _life.ASSUMPTIONS
+TRANSLATORS = ['callback_skeleton', 'run_skeleton', 'run_record']
+TRUSTED_BASE = _life.TRUSTED_BASE + [
+    'translate/run_record.py (ast -> terms of Life/RecordSyntax.v; fail closed: any statement / expression of the translated '
+    'functions that is not recognised aborts the translation; dropped: logging, docstrings, typing, time stamps), '
+    'translate/callback_skeleton.py, translate/run_skeleton.py; the semantics given to the terms in Life/RecordInterp.v '
+    '(Python attribute / dict / dataclass / `or` / `and` / walrus semantics as far as the code uses them; attribute reads of '
+    'live objects (Process.exitcode, .pid), strftime, datetime.now, json.dumps, traceback.format_exception do not raise; a '
+    'module-level dict is consulted with one key per await) and in Life/RecordRun.v (the data statements of an atomic '
+    'segment run at its control point; the continuation of an await runs iff the await returned; a hook call reaches the '
+    'built-in implementations whether or not another plugin raises; pluggy calls implementations by argument name, last '
+    'registered first, firstresult = first non-None)',
+]
+ASSUMPTIONS = _life.ASSUMPTIONS + [
+    'RecordRun: the child is one of {spawned.main returned RunResult(ret, exc) built by the translated class, spawned.main '
+    'raised (exception as data), nothing came back}; exit code and membership in _exitcode_to_name are arbitrary and '
+    'independent of it; user plugins do not implement result/format_exception and do not publish on run_info',
+]
 correspond, search, replay = _life.make('C02')
